@@ -12,6 +12,7 @@ import (
 	"github.com/llir/llvm/ir/metadata"
 	"github.com/llir/llvm/ir/types"
 	"github.com/llir/llvm/ir/value"
+	"github.com/llir/llvm/verifhook"
 	"github.com/pkg/errors"
 )
 
@@ -87,6 +88,7 @@ func (m *Module) WriteTo(w io.Writer) (n int64, err error) {
 	if err := m.AssignMetadataIDs(); err != nil {
 		panic(fmt.Errorf("unable to assign metadata IDs of module; %v", err))
 	}
+	verifhook.Yield("Module.WriteTo")
 	// Source filename.
 	if len(m.SourceFilename) > 0 {
 		// 'source_filename' '=' Name=StringLit
@@ -327,6 +329,7 @@ func (u *UseListOrderBB) String() string {
 func (m *Module) AssignGlobalIDs() error {
 	m.mu.Lock()
 	defer m.mu.Unlock()
+	verifhook.Yield("Module.AssignGlobalIDs")
 	id := int64(0)
 	setName := func(n namedVar) error {
 		if n.IsUnnamed() {
@@ -372,6 +375,7 @@ func (m *Module) AssignGlobalIDs() error {
 func (m *Module) AssignMetadataIDs() error {
 	m.mu.Lock()
 	defer m.mu.Unlock()
+	verifhook.Yield("Module.AssignMetadataIDs")
 	// Index used IDs.
 	used := make(map[int64]bool)
 	for _, md := range m.MetadataDefs {
